@@ -70,7 +70,8 @@ theorem retryLoop_calls_bound (m : Int) (hm : 0 < m) (tc : Option Nat) (script :
   | case5 => simp; omega
   | case6 => simp; omega
   | case7 => simp; omega
-  | case8 a now o d tie rest calls h1 h2 h3 h4 h5 h6 ih =>
+  | case8 => simp; omega
+  | case9 a now o d tie rest calls h1 h2 h3 h4 h5 h6 h7 ih =>
     have := ih (by omega)
     simp at this ⊢; omega
 
@@ -112,7 +113,12 @@ theorem retryLoop_no_call_after_cancel (m : Int) (c : Nat) (script : List (Outco
     intro t ht; simp at ht; rcases ht with ht | rfl
     · exact h t ht
     · exact this
-  | case8 a now o d tie rest calls h1 h2 h3 h4 h5 h6 ih =>
+  | case8 =>
+    have : _ < c := lt_of_not_cancelled (by assumption)
+    intro t ht; simp at ht; rcases ht with ht | rfl
+    · exact h t ht
+    · exact this
+  | case9 a now o d tie rest calls h1 h2 h3 h4 h5 h6 h7 ih =>
     have : now < c := lt_of_not_cancelled h1
     apply ih
     intro t ht; simp at ht; rcases ht with rfl | ht
@@ -124,10 +130,11 @@ theorem retry_no_call_after_cancel (m : Int) (c start : Nat) (script : List (Out
     ∀ t ∈ (retry m (some c) start script).calls, t < c :=
   retryLoop_no_call_after_cancel m c script 0 start [] (by simp)
 
-/-- The loop stops at the first success, permanent error or breaker refusal: whatever the script
-    holds after that element is never used (no invocation "after success / a permanent error"). -/
+/-- The loop stops at the first success, permanent error, breaker refusal or invocation that cancelled the context itself:
+    whatever the script holds after that element is never used (no invocation "after success / a permanent error /
+    cancellation"). -/
 theorem retry_stops_on_final (m : Int) (tc : Option Nat) (pre post : List (Outcome × Nat × Bool))
-    (x : Outcome × Nat × Bool) (hx : x.1 = .ok ∨ x.1 = .perm ∨ x.1 = .breakerOpen)
+    (x : Outcome × Nat × Bool) (hx : x.1 = .ok ∨ x.1 = .perm ∨ x.1 = .breakerOpen ∨ x.1 = .transCancel)
     (a now : Nat) (calls : List Nat) :
       retryLoop m tc a now (pre ++ x :: post) calls = retryLoop m tc a now (pre ++ [x]) calls := by
   induction pre generalizing a now calls with
@@ -136,11 +143,36 @@ theorem retry_stops_on_final (m : Int) (tc : Option Nat) (pre post : List (Outco
     simp only [List.nil_append]
     simp only [retryLoop]
     simp at hx
-    rcases hx with hx | hx | hx <;> subst hx <;> simp
+    rcases hx with hx | hx | hx | hx <;> subst hx <;> simp
   | cons y rest ih =>
     obtain ⟨o, d, tie⟩ := y
     simp only [List.cons_append, retryLoop]
     rw [ih]
+
+/-- One invocation per script element at most. -/
+theorem retryLoop_calls_le_script (m : Int) (tc : Option Nat) (script : List (Outcome × Nat × Bool))
+    (a now : Nat) (calls : List Nat) :
+      (retryLoop m tc a now script calls).calls.length ≤ calls.length + script.length := by
+  fun_induction retryLoop m tc a now script calls with
+  | case1 => simp
+  | case2 => simp
+  | case3 => simp
+  | case4 => simp
+  | case5 => simp
+  | case6 => simp
+  | case7 => simp
+  | case8 => simp
+  | case9 a now o d tie rest calls h1 h2 h3 h4 h5 h6 h7 ih => simp at ih ⊢; omega
+
+/-- An invocation that cancels the context itself is the last one, whatever backoff is drawn afterwards (a zero backoff
+    makes the `select` a tie between the timer and `Done`: the check at the top of the loop then ends it). -/
+theorem retry_cancelling_call_is_last (m : Int) (tc : Option Nat) (pre post : List (Outcome × Nat × Bool))
+    (d : Nat) (tie : Bool) (a now : Nat) (calls : List Nat) :
+      (retryLoop m tc a now (pre ++ (.transCancel, d, tie) :: post) calls).calls.length ≤ calls.length + pre.length + 1 := by
+  rw [retry_stops_on_final m tc pre post (.transCancel, d, tie) (by simp)]
+  have := retryLoop_calls_le_script m tc (pre ++ [(.transCancel, d, tie)]) a now calls
+  simp at this
+  omega
 
 /-- Sum of the waits drawn in a script. -/
 def waitSum : List (Outcome × Nat × Bool) → Nat
